@@ -639,7 +639,7 @@ def _l5(ctx, R, CM):
             for ev in evs:
                 if ev.kind != "write" or ev.recv is None:
                     continue
-                ks = set(kinds_of(fe.ty.type_of(ev.recv, fe.ty.state.get(node, Env())))) - {"None"}
+                ks = set(kinds_of(fe.ty.type_of(ev.recv, fe.ty.state.get(node, Env()))) or ()) - {"None"}
                 if not ks:
                     continue
                 m += 1
